@@ -6,12 +6,13 @@ RULE = ("S-syn listings x rules with $not in leading, inner, trailing and repeat
         "(argument: one item, or a two-instruction $and of which only the first half matches) and $not in operand "
         "lists followed by further operand items / a following instruction item; $not as a child of operand-level $or / $and_any_order; "
         "probe strata: three- and four-operand instructions with an operand $not before further items, and $not: [$not: [G]] with "
-        "a multi-instruction G. Oracle: R-dsl differential; every hit "
+        "a multi-instruction G; wide instructions (4-5 operands, brace decorations); an exhaustive instruction-level not grid (13 arguments x 4 pattern shapes x neighbours, "
+        "expected hits by the plain definition on the mnemonic sequence, identical at every seed). Oracle: R-dsl differential; every hit "
         "text must decode to exactly a model window (catches 'consumed two instructions' and hits that do not start at "
         "a record). Non-trivial = model finds the rule or one mutation from a found case; distinct = (rule, listing).")
 FLOOR = {"quick": 300, "thorough": 4000}
 ANCHOR_HINTS = ["node_branch_root", "ast_builder"]
-REQUIRED_EVENTS = ["hits_located", "operand_not_probes", "double_negation_probes", "capture_as_not_argument_probes", "wide_instruction_probes"]
+REQUIRED_EVENTS = ["hits_located", "operand_not_probes", "double_negation_probes", "capture_as_not_argument_probes", "wide_instruction_probes", "not_grid_cells"]
 
 
 def feat(rng):
@@ -28,7 +29,11 @@ def run_shard(ctx):
     if ctx.shard == 3 % ctx.nshards:
         strata.capture_not_stratum(ctx, d)
     strata.wide_instruction_stratum(ctx, d, ctx.share(96, 4000))
+    strata.not_grid_stratum(ctx, d.ws)
 
 
 def replay(ctx, case):
+    if case.get("notgrid"):
+        from jv import strata
+        return strata.replay_not_grid(ctx, case)
     drive.replay_dsl(ctx, case)
